@@ -1,8 +1,11 @@
 ----------------------------- MODULE Trace_C08 -----------------------------
 EXTENDS XrlXRFKissel, XrlChunks
+\* the same module judges events of the C library (check C08) and of the Java implementation (check C19, second binding)
+PropLabel == IF "XRL_PROP" \in DOMAIN IOEnv THEN IOEnv.XRL_PROP ELSE "C08"
+ImplLabel == IF "XRL_IMPL" \in DOMAIN IOEnv THEN IOEnv.XRL_IMPL ELSE "C"
 AtOf(ev, m) == CHOOSE j \in 1..Len(ev.at) : m \in AtComplaints(ev, ev.at[j]) \cup LineComplaints(ev, ev.at[j])
-BadOf(i, ev) == IF ev.k = "kxrf" THEN { [prop |-> "C08", line |-> i, Z |-> ev.Z, E |-> FStr(ev.at[AtOf(ev, m)].E), why |-> m] : m \in Complaints(ev) }
-                ELSE {[prop |-> "C08", line |-> i, why |-> "unexpected event"]}
+BadOf(i, ev) == IF ev.k = "kxrf" THEN { [prop |-> PropLabel, impl |-> ImplLabel, line |-> i, Z |-> ev.Z, E |-> FStr(ev.at[AtOf(ev, m)].E), why |-> m] : m \in Complaints(ev) }
+                ELSE {[prop |-> PropLabel, impl |-> ImplLabel, line |-> i, why |-> "unexpected event"]}
 Judged == JudgedWith(BadOf)
-Static == c = 0 => (AugerStructureOK \/ PrintT("MISMATCH " \o ToJson([prop |-> "C08", layer |-> "spec", why |-> "Auger macro family malformed"])))
+Static == c = 0 => (AugerStructureOK \/ PrintT("MISMATCH " \o ToJson([prop |-> PropLabel, impl |-> ImplLabel, layer |-> "spec", why |-> "Auger macro family malformed"])))
 ============================================================================
